@@ -2,6 +2,7 @@ package ssaexec
 
 import (
 	"fmt"
+	"strings"
 	"go/constant"
 	"go/token"
 	"go/types"
@@ -98,7 +99,17 @@ var lazyInitPkgs = map[string]bool{
 }
 
 func (x *Exec) lazyInit(p *ssa.Package) bool {
-	if lazyInitPkgs[p.Pkg.Path()] {
+	path := p.Pkg.Path()
+	if lazyInitPkgs[path] {
+		return true
+	}
+	// non-standard-library packages (module paths contain a dot) are
+	// initialised on first access to one of their globals
+	first := path
+	if i := strings.Index(path, "/"); i >= 0 {
+		first = path[:i]
+	}
+	if strings.Contains(first, ".") {
 		return true
 	}
 	for _, ip := range x.Opt.InitPkgs {
@@ -159,6 +170,15 @@ type nativeFn struct {
 }
 
 func (x *Exec) callSSA(fn *ssa.Function, args []Value, env []Value, site ssa.CallInstruction) Value {
+	if x.Opt.Merge != nil && x.Opt.Merge[fn.String()] {
+		if v, ok := x.callMerged(fn, args, env, site); ok {
+			return v
+		}
+	}
+	return x.callSSANoMerge(fn, args, env, site)
+}
+
+func (x *Exec) callSSANoMerge(fn *ssa.Function, args []Value, env []Value, site ssa.CallInstruction) Value {
 	name := fn.String()
 	if fn.Synthetic != "" && fn.Name() == "init" && len(x.stack) > 0 && x.stack[len(x.stack)-1].fn.Name() == "init" {
 		// nested package initializer: imports are initialised lazily
@@ -489,7 +509,7 @@ func (x *Exec) concreteLen(t *smt.Term, typ types.Type, elem types.Type, what st
 			if x.Opt.AllocLimit != nil {
 				lim := x.Opt.AllocLimit(x.inputLen)
 				if int64(v)*es+x.allocB > lim {
-					f := &Finding{Kind: "alloc", Label: "alloc-bound", Harness: x.harness, Model: m, Tape: x.tape(m), Path: append([]int{}, x.trace...),
+					f := &Finding{Kind: "alloc", Label: "alloc-bound", Harness: x.harness, Model: m, Tape: x.tape(m), Path: append([]int{}, x.sc.trace...),
 						Msg: fmt.Sprintf("%s of %d elements x %d bytes requested for a %d-byte input (limit %d)", what, v, es, x.inputLen, lim)}
 					x.findings = append(x.findings, f)
 					panic(pathEnd{"alloc-bound"})
@@ -514,7 +534,7 @@ func (x *Exec) concreteLen(t *smt.Term, typ types.Type, elem types.Type, what st
 	}
 	if n > 1<<22 {
 		// far beyond anything a harness input of a few dozen bytes justifies
-		f := &Finding{Kind: "alloc", Label: "huge-allocation", Harness: x.harness, Path: append([]int{}, x.trace...),
+		f := &Finding{Kind: "alloc", Label: "huge-allocation", Harness: x.harness, Path: append([]int{}, x.sc.trace...),
 			Msg: fmt.Sprintf("%s of %d elements x %d bytes", what, n, x.sizeof(elem))}
 		if x.query() == smt.Sat {
 			f.Model = x.fullModel()
@@ -704,9 +724,21 @@ func (x *Exec) concreteIndex(t *smt.Term, n int, what string) int {
 	return int(x.Concretize(t, n, what))
 }
 
+// idx64 widens an index operand to 64 bits according to its Go type.
+func (x *Exec) idx64(t *smt.Term, typ types.Type) *smt.Term {
+	if t.Sort.W == 64 {
+		return t
+	}
+	_, signed := x.intWidth(typ)
+	if signed {
+		return x.C.SExt(t, 64)
+	}
+	return x.C.ZExt(t, 64)
+}
+
 func (x *Exec) indexAddr(fr *frame, in *ssa.IndexAddr) Value {
 	base := x.get(fr, in.X)
-	it := x.get(fr, in.Index).(*smt.Term)
+	it := x.idx64(x.get(fr, in.Index).(*smt.Term), in.Index.Type())
 	switch b := base.(type) {
 	case SliceV:
 		i := x.concreteIndex(it, b.Len, "slice index")
@@ -723,7 +755,7 @@ func (x *Exec) indexAddr(fr *frame, in *ssa.IndexAddr) Value {
 
 func (x *Exec) index(fr *frame, in *ssa.Index) Value {
 	base := x.get(fr, in.X)
-	it := x.get(fr, in.Index).(*smt.Term)
+	it := x.idx64(x.get(fr, in.Index).(*smt.Term), in.Index.Type())
 	switch b := base.(type) {
 	case *ArrayV:
 		if !it.IsConst() && len(b.E) > 0 {
@@ -756,6 +788,17 @@ func (x *Exec) selectTerm(idx *smt.Term, vals []Value, what string) Value {
 	inb := x.C.ULt(idx, x.C.BVC(w, uint64(n)))
 	if !x.Branch(inb) {
 		x.rtPanic(fmt.Sprintf("index out of range [symbolic] with length %d (%s)", n, what))
+	}
+	allConst := true
+	tab := make([]*smt.Term, n)
+	for i, v := range vals {
+		tab[i] = v.(*smt.Term)
+		if !tab[i].IsConst() {
+			allConst = false
+		}
+	}
+	if allConst {
+		return x.C.SelectConst(idx, tab)
 	}
 	r := vals[n-1].(*smt.Term)
 	for i := n - 2; i >= 0; i-- {
@@ -813,7 +856,7 @@ func (x *Exec) lookup(fr *frame, in *ssa.Lookup) Value {
 		}
 		return v
 	case Str:
-		it := x.get(fr, in.Index).(*smt.Term)
+		it := x.idx64(x.get(fr, in.Index).(*smt.Term), in.Index.Type())
 		bs := x.strBytes(b)
 		i := x.concreteIndex(it, len(bs), "string index")
 		return bs[i]
